@@ -87,6 +87,7 @@ type world struct {
 	freed    map[int32][]string // names that were held and released, per event type
 	tags     map[string]bool
 
+	dropByKey    map[key]bool
 	pendingPanic string
 }
 
@@ -184,6 +185,23 @@ func (w *world) announce(upto *int) {
 		}
 		w.h.Op("def %d %d %d %s %d %d %s %d %d %d %d", c.k, e.EventType, e.Id, name, len(e.Data), sz,
 			metajournal.VerifC20Hash(e), b2i(c.ok), b2i(c.dis), c.t, c.c)
+		// the hypotheses `TabOK` of the Lean convergence theorem, checked on what the real code produced:
+		// transport and compaction keep (type, id); whether compaction discards depends on the entity only; sizes > 0
+		te := w.contents[c.t].ev
+		bad := te.EventType != e.EventType || te.Id != e.Id || sz <= 0
+		if c.c >= 0 {
+			ce := w.contents[c.c].ev
+			bad = bad || ce.EventType != e.EventType || ce.Id != e.Id
+		}
+		kk := key{e.EventType, e.Id}
+		if prev, ok := w.dropByKey[kk]; ok && prev != (c.c < 0) {
+			bad = true
+		}
+		w.dropByKey[kk] = c.c < 0
+		if bad {
+			w.h.Viol("table-assumption-violated", "content %d (type %d id %d): transport/compaction changed the entity, or discard is not per entity, or size 0", c.k, e.EventType, e.Id)
+		}
+		w.h.Stat("oracle.tabok", 1)
 		*upto++
 	}
 }
@@ -985,7 +1003,7 @@ func (w *world) toggle(upto *int) bool {
 // ---------------------------------------------------------------- one case
 
 func runCase(h *verifx.H, r *verifx.Rng, idx int) {
-	w := &world{h: h, r: r, intern: map[tlmetadata.Event]int{}, ents: map[key]*entity{}, freed: map[int32][]string{}, tags: map[string]bool{}}
+	w := &world{h: h, r: r, intern: map[tlmetadata.Event]int{}, ents: map[key]*entity{}, freed: map[int32][]string{}, tags: map[string]bool{}, dropByKey: map[key]bool{}}
 	w.big = r.Chance(1, 12)
 	if h.Mode == "small" {
 		w.big = false
@@ -1102,7 +1120,7 @@ func runCase(h *verifx.H, r *verifx.Rng, idx int) {
 // runWitness: the minimal histories of the defect class (one per entity type, plus one with a regrouping pass while two
 // metrics transiently carry the same name). Deterministic, four cases.
 func runWitness(h *verifx.H, r *verifx.Rng, idx int) {
-	w := &world{h: h, r: r, intern: map[tlmetadata.Event]int{}, ents: map[key]*entity{}, freed: map[int32][]string{}, tags: map[string]bool{}}
+	w := &world{h: h, r: r, intern: map[tlmetadata.Event]int{}, ents: map[key]*entity{}, freed: map[int32][]string{}, tags: map[string]bool{}, dropByKey: map[key]bool{}}
 	for i := 0; i < 2; i++ {
 		rep := &replica{up: 0}
 		rep.st = metajournal.MakeMetricsStorage(nil)
